@@ -297,7 +297,9 @@ func (e *enc) loopStores(fr *frame, body map[*ssa.BasicBlock]bool) map[string]bo
 				e.addWriteBase(fr, x.Addr, keys, &dummy)
 			case *ssa.Call:
 				var dummy bool
+				e.storesOnly = true
 				e.callWrites(fr, x.Common(), keys, &dummy)
+				e.storesOnly = false
 			}
 		}
 	}
@@ -504,8 +506,14 @@ func (e *enc) callWrites(fr *frame, c *ssa.CallCommon, keys map[string]bool, all
 		}
 	}
 	fa := e.w.frameOf(callee)
-	for g := range fa.writes {
-		keys[e.ensureGlobal(g)] = true
+	if e.storesOnly {
+		for g := range fa.assigns {
+			keys[e.ensureGlobal(g)] = true
+		}
+	} else {
+		for g := range fa.writes {
+			keys[e.ensureGlobal(g)] = true
+		}
 	}
 	if fa.heap {
 		*allHeap = true
@@ -1174,6 +1182,9 @@ func (e *enc) instr(b *ssa.BasicBlock, in ssa.Instruction) {
 					fr.nodeField = map[ssa.Value]Term{}
 				}
 				fr.nodeField[x] = v
+				if db, ks := e.candKinds(x.X, v); db != nil {
+					e.setCand(v, db, ks)
+				}
 			} else {
 				e.note("FieldAddr on unknown base %s in %s", x, fnFull(fr.fn))
 			}
@@ -1243,6 +1254,9 @@ func (e *enc) instr(b *ssa.BasicBlock, in ssa.Instruction) {
 			e.safety("nil", fmt.Sprintf("(not (= %s 0))", l.ref), x.Pos(), x.String())
 		}
 		v := e.value(x.Val)
+		if l.ty == nil && strings.HasPrefix(l.sort, "U_") && e.so.of(x.Val.Type()) != l.sort {
+			v = e.wrapOpaque(l.sort, e.so.of(x.Val.Type()), v)
+		}
 		e.write(l, v)
 		if p, ok := x.Val.(*ssa.Parameter); ok {
 			if a, ok := x.Addr.(*ssa.Alloc); ok && a.Comment == p.Name() && len(l.path) == 0 {
@@ -1276,6 +1290,12 @@ func (e *enc) instr(b *ssa.BasicBlock, in ssa.Instruction) {
 			}
 			if l.ref != "" && len(l.path) == 0 {
 				e.safety("nil", fmt.Sprintf("(not (= %s 0))", l.ref), x.Pos(), x.String())
+			}
+			if l.ty == nil && strings.HasPrefix(l.sort, "U_") && e.so.of(x.Type()) != l.sort {
+				// a field whose sort was cut to break a recursive struct definition: converted at the boundary
+				fr.val[x] = e.define("ld_"+x.Name(), e.so.of(x.Type()), e.unwrapOpaque(l.sort, e.so.of(x.Type()), e.read(l)))
+				e.assumeWF(fr.val[x], x.Type(), 1)
+				return
 			}
 			fr.val[x] = e.define("ld_"+x.Name(), e.so.of(x.Type()), e.read(l))
 			fr.prov[x] = l
@@ -1339,7 +1359,12 @@ func (e *enc) instr(b *ssa.BasicBlock, in ssa.Instruction) {
 		}
 		fr.val[x] = fmt.Sprintf("(%s.%s %s)", ssort, fi[x.Field].name, e.value(x.X))
 		if fi[x.Field].opaque {
-			fr.val[x] = e.fresh("opqfld", e.so.of(x.Type()))
+			if strings.HasPrefix(fi[x.Field].sort, "U_") && e.so.of(x.Type()) != fi[x.Field].sort {
+				fr.val[x] = e.define("fld", e.so.of(x.Type()), e.unwrapOpaque(fi[x.Field].sort, e.so.of(x.Type()), fr.val[x]))
+				e.assumeWF(fr.val[x], x.Type(), 1)
+			} else {
+				fr.val[x] = e.fresh("opqfld", e.so.of(x.Type()))
+			}
 		}
 	case *ssa.Extract:
 		if tup, ok := fr.tuples[x.Tuple]; ok && x.Index < len(tup) {
@@ -1491,6 +1516,21 @@ func (e *enc) instr(b *ssa.BasicBlock, in ssa.Instruction) {
 			fr.val[v] = e.fresh("unk", e.so.of(v.Type()))
 		}
 	}
+}
+
+// wrapOpaque / unwrapOpaque: conversions between a field sort cut off to break a recursive datatype and the real sort
+func (e *enc) unwrapOpaque(u, s string, t Term) Term {
+	f := e.uf("unw_"+clean(u), []string{u}, s)
+	return fmt.Sprintf("(%s %s)", f, t)
+}
+
+func (e *enc) wrapOpaque(u, s string, t Term) Term {
+	f := e.uf("wrp_"+clean(u), []string{s}, u)
+	g := e.uf("unw_"+clean(u), []string{u}, s)
+	e.once("wrapax#"+u, func() {
+		e.decls = append(e.decls, fmt.Sprintf("(assert (forall ((x %s)) (! (= (%s (%s x)) x) :pattern ((%s x)))))", s, g, f, f))
+	})
+	return fmt.Sprintf("(%s %s)", f, t)
 }
 
 func locKey(l *Loc) string {
